@@ -575,3 +575,75 @@ def set_arrays_inplace(pid):
                      z3.ForAll([KQ], z3.Implies(z3.And(KQ >= 0, KQ < N), v.arr('self.a').vals[KQ] == v.arr('self.a').vals[0] + KQ))))],
                  ensures=[('v[k]=dae.x[a[k]],e[k]=dae.f[a[k]],one-entry-per-device', post)], modifies=['self.v', 'self.e'])
     return c
+
+
+def extparam_link_group(pid):
+    """ExtParam.link_external (source is a Group): v, vin and pu_coeff are what the group's lookup returns for (src=self.src,
+    idx=<the indexer's entries, in order>, attr=<v | vin | pu_coeff>, allow_none=self.allow_none, default=self.default) -- the
+    position-preserving lookup of GroupBase.get (own contract), so that entry j belongs to the device named by indexer entry j."""
+    GOT = {a: fresh('group_get_' + a, z3.ArraySort(I, R)) for a in ('v', 'vin', 'pu_coeff')}
+    M = fresh('M', I)
+
+    def get(ex, st, args, kw, node):
+        attr = kw.get('attr')
+        idx = kw.get('idx')
+        ok = not args and kw.get('src') == 'p' and attr in GOT and isinstance(idx, Ref) and idx.loc == st.load('self.indexer.v').loc
+        ex.oblige(st, 'pre@call:group.get(src=self.src,idx=self.indexer.v,attr=v|vin|pu_coeff)', z3.BoolVal(bool(ok)), {})
+        ex.oblige(st, 'pre@call:group.get:allow_none-and-default-forwarded',
+                  z3.And(to_z3(kw.get('allow_none')) == to_z3(st.load('self.allow_none')), as_real(kw.get('default')).val == st.load('self.default').val), {})
+        if not ok:
+            raise Unsupported('group.get call shape')
+        st.ghost['got'] = st.ghost['got'] + [attr]
+        return st.new_ref(ArrC(GOT[attr], M, None), 'got_' + attr)
+
+    def post(old, new, res):
+        k = fresh('k', I)
+        cl = [z3.BoolVal(sorted(new.st.ghost['got']) == ['pu_coeff', 'v', 'vin'])]
+        for attr in ('v', 'vin', 'pu_coeff'):
+            a = new.arr('self.' + attr)
+            cl.append(z3.And(a.n == M, z3.ForAll([k], z3.Implies(z3.And(k >= 0, k < M), a.vals[k] == GOT[attr][k]))))
+        return z3.And(*cl)
+    c = Contract(
+        FP, 'ExtParam.link_external', pid=pid, params={'self': TObj(), 'ext_model': TObj()},
+        schema={'self.src': TConst('p'), 'self.indexer.v': TSeq(elem=TStr.sort), 'self.allow_none': TBool(), 'self.default': TReal(),
+                'self.name': TStr(), 'self.v': TArr(), 'self.vin': TArr(), 'self.pu_coeff': TArr(), 'self.parent_model': TOpaque('Any')},
+        requires=[('sizes', lambda v: z3.And(M >= 0, v.arr('self.indexer.v').n == M))],
+        ghost_init={'got': []},
+        calls={'hasattr': lambda ex, st, a, k, n: True, 'ext_model.get': get},
+        globals_={'hasattr': Func('hasattr')},
+        ensures=[('v,vin,pu_coeff=group.get(src,indexer,attr)-entry-for-entry', post)],
+        modifies=['self.*'])
+    c.tag = 'group'
+    return c
+
+
+def replay_extparam_group(obligation=None, model=None, meta=None):
+    """native: a group served by two models (SynGen: GENROU and GENCLS) whose devices are referenced in interleaved order by the index
+    field of a third model (TGOV1.syn); the borrowed rating Sg of governor j must be the rating of the generator named by syn[j]"""
+    import contextlib
+    import io
+    import logging
+    import numpy as np
+    import andes
+    logging.getLogger('andes').setLevel(logging.CRITICAL)
+    n = 0
+    for perm in ([3, 0, 1, 4, 2], [0, 1, 2, 3, 4], [1, 3, 0, 2, 4]):
+        n += 1
+        with contextlib.redirect_stdout(io.StringIO()), contextlib.redirect_stderr(io.StringIO()):
+            ss = andes.load(andes.get_case('ieee14/ieee14.raw'), default_config=True, no_output=True, setup=False)
+            gens = [(ss.Slack.idx.v[0], ss.Slack.bus.v[0])] + list(zip(ss.PV.idx.v, ss.PV.bus.v))
+            ratings = [900.0, 600.0, 800.0, 700.0, 500.0]
+            kinds = ['GENROU', 'GENCLS', 'GENROU', 'GENCLS', 'GENROU']
+            syn = [ss.add(k, dict(bus=b, gen=g, Sn=s, M=4.0)) for (g, b), s, k in zip(gens, ratings, kinds)]
+            order = [syn[i] for i in perm]
+            for s in order:
+                ss.add('TGOV1', dict(syn=s))
+            ss.setup()
+        want = [ratings[i] for i in perm]
+        for attr in ('v', 'vin'):
+            got = [float(x) for x in np.atleast_1d(getattr(ss.TGOV1.Sg, attr))]
+            if got != want:
+                return {'confirmed': True, 'inputs': {'case': 'ieee14.raw + %s with Sn = %r, TGOV1.syn = %r' % (kinds, ratings, order)},
+                        'observed': 'TGOV1.Sg.%s = %r, the generators named by syn have the ratings %r' % (attr, got, want),
+                        'native_cmd': 'contracts/fn_address.py replay_extparam_group'}
+    return {'confirmed': False, 'tried': n}
